@@ -26,10 +26,13 @@ type RLCase struct {
 	Bits  uint8      `json:"bits"`
 	Tails []HexBytes `json:"tails"` // key = bucket bytes + tail; equal lengths, distinct
 	Ops   []RLOp     `json:"ops"`
+	// Sparse: bulk cases (hundreds of keys in the bucket) run the oracle only
+	// after flush and evict operations and at the end.
+	Sparse bool `json:"sparse,omitempty"`
 }
 
 const c08Rule = "index.Index over the in-memory primary; caller contract as the store keeps it (Put only for absent keys, Update/Remove only for present keys; equal-length distinct keys of one bucket). " +
-	"Exhaustive part: universe {bucket} x S^3 with |S|=2: every ordered insertion of up to 5 (quick) / 6 (thorough) distinct keys followed by every single re-point, removal or further insertion, under three flush placements (never, after every op, once before the last op); |S|=3: all ordered insertions of up to 3 (quick) / 4 (thorough) keys. Random part: rapid sequences of <=80 set/remove/flush over alphabets of 2..256 symbols, key lengths 4..40, bits 8/9/16. " +
+	"Exhaustive part: universe {bucket} x S^3 with |S|=2: every ordered insertion of up to 5 (quick) / 6 (thorough) distinct keys followed by every single re-point, removal or further insertion, under three flush placements (never, after every op, once before the last op); |S|=3: all ordered insertions of up to 3 (quick) / 4 (thorough) keys. Random part: rapid sequences of <=80 set/remove/flush over alphabets of 2..256 symbols, key lengths 4..40, bits 8/9/16, with an operation that pushes the bucket out of the in-memory pools (two flushes carrying other buckets) so that it is read from disk afterwards; bulk part: 150-450 keys in the bucket (record lists of several KiB), flushed, pushed out, then read / re-pointed / removed from disk (oracle after flush and push-out operations and at the end). " +
 	"oracle after EVERY operation: each present key resolves to its latest location; each absent key of the universe resolves to nothing or to the location of a present key; the decoded record list is strictly sorted, pairwise prefix-free, has one entry per present key, every stored prefix is a prefix of the key owning that location; Update changed only the addressed entry's location and Remove removed only the addressed entry. " +
 	"non-trivial = a list of >=3 entries in which a stored prefix was lengthened by a later insertion; distinct = distinct operation sequence"
 
@@ -40,6 +43,8 @@ type c08Env struct {
 	prim    *inmemory.InMemory
 	next    uint32
 	fileMax uint32
+	// evictSeq makes the keys written into neighbouring buckets unique.
+	evictSeq uint32
 }
 
 func newC08Env(bits uint8) *c08Env {
@@ -75,7 +80,7 @@ func (e *c08Env) close() {
 // part of the bucket choice, so all keys built on the returned lead share
 // the bucket.
 func (e *c08Env) freshBucket() ([]byte, uint32) {
-	if e.next >= 1<<e.bits || len(*e.prim) > 2_000_000 {
+	if e.next >= 1<<e.bits-2 || len(*e.prim) > 2_000_000 { // the last two buckets are reserved (see "evict")
 		e.reset()
 	}
 	b := e.next
@@ -102,6 +107,7 @@ func decodeRL(data []byte) ([]rlEntry, error) {
 }
 
 type rlStats struct {
+	evicted    bool
 	maxLen     int
 	lengthened bool
 }
@@ -175,6 +181,33 @@ func runRL(e *c08Env, c RLCase) (st rlStats, v *Violation) {
 		return nil
 	}
 	for i, op := range c.Ops {
+		if op.K == "evict" {
+			// Two flushes that carry changes of other buckets: the bucket under
+			// test leaves both in-memory pools and is read from disk from now on.
+			for r := 0; r < 2; r++ {
+				// One of the two buckets that are reserved for this purpose (never
+				// handed out as a bucket under test); unique key each time.
+				b2 := uint32(1)<<e.bits - 1 - uint32(r) // the two reserved buckets
+				e.evictSeq++
+				lead2 := []byte{byte(b2), byte(b2 >> 8), byte(b2 >> 16), byte(b2 >> 24)}[:(int(e.bits)+7)/8]
+				k2 := append(append([]byte{}, lead2...), 0xe1, byte(e.evictSeq), byte(e.evictSeq>>8), byte(e.evictSeq>>16), byte(e.evictSeq>>24))
+				if e.bits == 9 {
+					k2[1] = byte(b2>>8) & 1 // bit 8 of the key belongs to the bucket number
+				}
+				blk2, _ := e.prim.Put(k2, []byte{1})
+				if err := e.idx.Put(k2, blk2); err != nil {
+					return st, viol("index-put-error|evict|"+errClass(err), i, "Put into another bucket: %v", err)
+				}
+				if _, err := e.idx.Flush(); err != nil {
+					return st, viol("index-flush-error|evict|"+errClass(err), i, "%v", err)
+				}
+			}
+			st.evicted = true
+			if v := check(i, "evict"); v != nil {
+				return st, v
+			}
+			continue
+		}
 		if op.K == "flush" {
 			if _, err := e.idx.Flush(); err != nil {
 				return st, viol("index-flush-error|flush|"+errClass(err), i, "%v", err)
@@ -186,9 +219,13 @@ func runRL(e *c08Env, c RLCase) (st rlStats, v *Violation) {
 		}
 		k := op.Key % len(keys)
 		key := keys[k]
-		before, err := list()
-		if err != nil {
-			return st, viol("record-list-unreadable|"+op.K+"|"+errClass(err), i, "%v", err)
+		var before []rlEntry
+		var err error
+		if !c.Sparse {
+			before, err = list()
+			if err != nil {
+				return st, viol("record-list-unreadable|"+op.K+"|"+errClass(err), i, "%v", err)
+			}
 		}
 		old, isPresent := present[k]
 		switch op.K {
@@ -208,6 +245,9 @@ func runRL(e *c08Env, c RLCase) (st rlStats, v *Violation) {
 			}
 			present[k] = blk
 			owner[blk] = k
+			if c.Sparse {
+				continue
+			}
 			after, err := list()
 			if err != nil {
 				return st, viol("record-list-unreadable|"+what+"|"+errClass(err), i, "%v", err)
@@ -259,6 +299,9 @@ func runRL(e *c08Env, c RLCase) (st rlStats, v *Violation) {
 			}
 			delete(present, k)
 			delete(owner, old)
+			if c.Sparse {
+				continue
+			}
 			after, err := list()
 			if err != nil {
 				return st, viol("record-list-unreadable|remove|"+errClass(err), i, "%v", err)
@@ -283,7 +326,34 @@ func runRL(e *c08Env, c RLCase) (st rlStats, v *Violation) {
 			panic(infraError{fmt.Errorf("unknown index op %q", op.K)})
 		}
 	}
+	if c.Sparse {
+		return st, check(len(c.Ops), "final")
+	}
 	return st, nil
+}
+
+// genRLBulk: hundreds of keys in one bucket (a record list of several KiB),
+// written, flushed, pushed out of the in-memory pools and then read, updated
+// and removed from disk.
+func genRLBulk(t *rapid.T) RLCase {
+	c := RLCase{Bits: []uint8{8, 16}[rapid.IntRange(0, 1).Draw(t, "bits")], Sparse: true}
+	n := rapid.IntRange(150, 450).Draw(t, "nkeys")
+	tailLen := []int{3, 4, 6, 12}[rapid.IntRange(0, 3).Draw(t, "taillen")]
+	stem := rapid.SliceOfN(rapid.Byte(), tailLen-2, tailLen-2).Draw(t, "stem")
+	for i := 0; i < n; i++ {
+		tail := append(append([]byte{}, stem...), byte(i>>8), byte(i))
+		c.Tails = append(c.Tails, tail)
+	}
+	for i := 0; i < n; i++ {
+		c.Ops = append(c.Ops, RLOp{K: "set", Key: i})
+	}
+	c.Ops = append(c.Ops, RLOp{K: "flush"}, RLOp{K: "evict"})
+	extra := rapid.SliceOfN(rapid.Custom(func(t *rapid.T) RLOp {
+		k := []string{"set", "rm", "flush", "evict"}[weighted(t, "kind", []int{6, 3, 1, 1})]
+		return RLOp{K: k, Key: rapid.IntRange(0, n-1).Draw(t, "key")}
+	}), 0, 30).Draw(t, "extra")
+	c.Ops = append(c.Ops, extra...)
+	return c
 }
 
 func genRL(t *rapid.T) RLCase {
@@ -320,7 +390,7 @@ func genRL(t *rapid.T) RLCase {
 		c.Tails = append(c.Tails, tail)
 	}
 	c.Ops = rapid.SliceOfN(rapid.Custom(func(t *rapid.T) RLOp {
-		k := []string{"set", "rm", "flush"}[weighted(t, "kind", []int{6, 2, 1})]
+		k := []string{"set", "rm", "flush", "evict"}[weighted(t, "kind", []int{12, 4, 2, 1})]
 		return RLOp{K: k, Key: rapid.IntRange(0, len(c.Tails)-1).Draw(t, "key")}
 	}), 1, 80).Draw(t, "ops")
 	return c
@@ -474,6 +544,25 @@ func TestC08(t *testing.T) {
 		c := genRL(rt)
 		st, v := runRL(env(c.Bits), c)
 		ev.Record(c, st.maxLen >= 3 && st.lengthened, "random", fmt.Sprintf("bits=%d", c.Bits))
+		if v != nil && ev.Report(v, c) {
+			rt.Fatalf("%v", v)
+		}
+	})
+	// Bulk part: record lists of several KiB read from disk.
+	setRapidChecks(budget(24, 40))
+	rapid.Check(t, func(rt *rapid.T) {
+		if pastDeadline() {
+			ev.Skip()
+			return
+		}
+		c := genRLBulk(rt)
+		st, v := runRL(env(c.Bits), c)
+		ev.Record(struct {
+			Bits  uint8
+			N     int
+			Tail0 HexBytes
+			Ops   int
+		}{c.Bits, len(c.Tails), c.Tails[0], len(c.Ops)}, st.evicted, "bulk-bucket-read-from-disk")
 		if v != nil && ev.Report(v, c) {
 			rt.Fatalf("%v", v)
 		}
